@@ -155,6 +155,12 @@ def survivors(spec, base: str, matches) -> set:
     return mods
 
 
+def _paths_of(root, module, spec):
+    """relative file-system paths a module name can stand for (directory or .py file)."""
+    rel = module.split(".", 1)[1].replace(".", "/") if "." in module else ""
+    return [rel, rel + ".py"] if rel else [""]
+
+
 def check_case(spec: dict) -> dict:
     if spec.get("type") == "conv":
         return check_conv(spec)
@@ -184,8 +190,16 @@ def check_case(spec: dict) -> dict:
         hit = [d for d in spec["dirs"] if any(M.glob_matches(g, f"{base}/{d}") for g in globs)][:1]
         free = [d for d in spec["dirs"] if not any(M.glob_matches(g, f"{base}/{'/'.join(d.split('/')[:i])}") for g in globs
                                                    for i in range(1, d.count("/") + 2))][:1]
-        for d in hit + free:
-            sub_runs.append((d, d in hit, scan_outcome(base, f"{base}/{d}", exclusions=tuple(globs))))
+        # ... and a directory that lies below an excluded one without matching itself (everything below an excluded
+        # directory contributes nothing, whether or not the scan starts there)
+        below = [d for d in spec["dirs"] if d not in hit and not any(M.glob_matches(g, f"{base}/{d}") for g in globs)
+                 and any(M.glob_matches(g, f"{base}/{'/'.join(d.split('/')[:i])}") for g in globs for i in range(1, d.count("/") + 1))][:1]
+        for d in hit + free + below:
+            sub_runs.append((d, d in hit or d in below, scan_outcome(base, f"{base}/{d}", exclusions=tuple(globs))))
+        # the regular expressions one after the other, each given alone, against the scan with an empty tuple of them:
+        # adding a pattern removes what it matches and nothing else (the tree may contain __pycache__ directories)
+        r_none = scan_outcome(base, regex_exclusions=())
+        r_each = [(r, scan_outcome(base, regex_exclusions=(r,))) for r in regexes[:2]]
         # one pattern given as a plain string, as the documentation's example does
         g_str = scan_outcome(base, exclusions=globs[0]) if len(globs) == 1 else None
         r_str = scan_outcome(base, regex_exclusions=regexes[0]) if len(regexes) == 1 else None
@@ -227,6 +241,15 @@ def check_case(spec: dict) -> dict:
     if r_run[0] == "ok" and (r_alone[0] != "ok" or r_alone[1] != r_run[1]):
         v("regex/regex_exclusions-alone", f"regex_exclusions={regexes} alone gives {r_alone[1] if r_alone[0] != 'ok' else 'another architecture'}, "
           "together with exclusions=() it is applied")
+    if r_none[0] == "ok":
+        for r, run in r_each:
+            keep = {m for m in r_none[1][0] if not any(re.match(r, f"{base}/{pth}") for pth in _paths_of(root, m, spec))}
+            if run[0] != "ok":
+                if keep:
+                    v("regex/one-pattern-vs-empty-tuple/scan-error", f"regex_exclusions=({r!r},): {run[1]}")
+            elif not set(run[1][0]) <= set(r_none[1][0]):
+                v("regex/one-pattern-vs-empty-tuple/modules-added", f"regex_exclusions=({r!r},) has modules {sorted(set(run[1][0]) - set(r_none[1][0]))} "
+                  f"that regex_exclusions=() does not have")
     for d, is_hit, run in sub_runs:
         sdot = PS.dotted(root, d)
         if is_hit:
@@ -276,7 +299,7 @@ def check_case(spec: dict) -> dict:
 
 @st.composite
 def cases(draw):
-    tree = draw(PS.project_trees(names=WEIRD, max_depth=3))
+    tree = draw(PS.project_trees(names=WEIRD + ["__pycache__"], max_depth=3))
     tree = draw(PS.with_imports(tree, extra_targets=["os.path", "json", "ab", "tests.helpers"]))
     ents = entries(tree)
     globs = []
